@@ -285,6 +285,50 @@ def check_C01(v, tier, seed):
     return cov
 
 
+def oracle_never_outside(c):
+    """C02: the returned object (or link body) was inside the root at some moment of the call."""
+    if c.res[:1] == ["panic"]:
+        return "the lookup panicked under an attacker schedule"
+    for t in c.extra.get("ident", []):
+        if t and t[0] == "OUT":
+            return "returned an object that was never inside the root: " + " ".join(t[1:])
+    return None
+
+
+def check_C02(v, tier, seed):
+    n = sizes(tier, 14, 120)
+    per = sizes(tier, 300, 700)
+    runs = [Run("C02-attack", ["attack", "--seed", str(seed), "--n", str(n), "--per-case", str(per)]),
+            Run("C02-attack-enosys", ["attack", "--seed", str(seed + 104729), "--n", str(max(n // 2, 8)),
+                                      "--per-case", str(per), "--no-openat2"])]
+    concrete = run_oracle_cases(v, runs, oracle_never_outside, "a lookup escaped the root under an attacker schedule")
+    broken = generic_tie(v, runs, concrete)
+
+    def key(c):
+        h = hashlib.sha1()
+        h.update(" ".join(c.op).encode())
+        h.update(repr(c.tree).encode())
+        h.update(repr(c.extra.get("attack")).encode())
+        h.update(c.cfg.get("backend", "").encode())
+        return h.hexdigest()
+    cov = coverage_of(runs, key=key)
+    cov["rule"] = ("cases are (tree, lookup, backend, attacker mutation, syscall boundary, permanent|flip-flop) tuples; the mutation is "
+                   "performed on the real filesystem by the interposer immediately before the boundary's system call; "
+                   "distinct = distinct tuples; non-trivial = at least 5 system calls")
+    cov["tie_mismatches"] = broken
+    muts, idents = {}, {}
+    for r in runs:
+        for c in r.cases:
+            a = c.extra.get("attack", [[]])[0]
+            name = next((t for t in a if not t.startswith(("at=", "flip="))), "none")
+            muts[name] = muts.get(name, 0) + 1
+            i = (c.extra.get("ident", [["?"]])[0] or ["?"])[0]
+            idents[i] = idents.get(i, 0) + 1
+    cov["mutation_distribution"] = muts
+    cov["result_identity"] = idents
+    return cov
+
+
 def check_C03(v, tier, seed):
     runs = root_runs("C03", tier, seed, "mutating", 1500, 30000)
     concrete = run_oracle_cases(v, runs, oracle_outside_untouched, "a mutating operation changed something outside the root")
@@ -965,6 +1009,7 @@ PROPS = {
     "C16": check_C16,
     "C18": check_C18,
     "C17": check_C17,
+    "C02": check_C02,
 }
 
 
